@@ -179,6 +179,42 @@ via_viewgrams(
   return flatten(dst);
 }
 
+// two symmetry groupings alternating on ONE normalisation object: for every (TOF, segment, view) the related viewgrams of that
+// basic view/segment under grouping A are processed, then immediately those under grouping B (an application that serves two
+// projectors with different symmetries from one normalisation object does exactly this).  Returns the two complete results.
+static std::pair<std::vector<float>, std::vector<float>>
+via_viewgrams_alternating(const BinNormalisation& norm, const Layout& L, const shared_ptr<const ExamInfo>& exam, const std::vector<float>& in,
+                          const SymSptr& symm_a, const SymSptr& symm_b, Op op, long& same_basic_both)
+{
+  ProjDataInMemory src(exam, L.pdi);
+  fill_from(src, in);
+  ProjDataInMemory dst_a(exam, L.pdi), dst_b(exam, L.pdi);
+  for (int k = L.pdi->get_min_tof_pos_num(); k <= L.pdi->get_max_tof_pos_num(); ++k)
+    for (int seg = L.pdi->get_min_segment_num(); seg <= L.pdi->get_max_segment_num(); ++seg)
+      for (int view = L.pdi->get_min_view_num(); view <= L.pdi->get_max_view_num(); ++view)
+        {
+          const ViewSegmentNumbers vs(view, seg);
+          int n = 0;
+          for (int which = 0; which < 2; ++which)
+            {
+              const SymSptr& symm = which == 0 ? symm_a : symm_b;
+              if (!symm->is_basic(vs))
+                continue;
+              ++n;
+              RelatedViewgrams<float> rv = src.get_related_viewgrams(vs, symm, false, k);
+              if (op == APPLY)
+                norm.apply(rv);
+              else
+                norm.undo(rv);
+              if ((which == 0 ? dst_a : dst_b).set_related_viewgrams(rv) != Succeeded::yes)
+                throw std::runtime_error("harness: set_related_viewgrams failed");
+            }
+          if (n == 2)
+            ++same_basic_both;
+        }
+  return std::make_pair(flatten(dst_a), flatten(dst_b));
+}
+
 // the whole-ProjData overloads; symm null: the default argument is used
 static std::vector<float>
 via_projdata(
@@ -305,6 +341,37 @@ check_norm(Ctx& ctx, const Nut& nut, const Layout& L, const shared_ptr<const Exa
               return none;
             }
         }
+      if (nut.groupings.size() >= 2)
+        {
+          size_t ga = static_cast<size_t>(rng.range(0, static_cast<long>(nut.groupings.size()) - 1));
+          size_t gb = static_cast<size_t>(rng.range(0, static_cast<long>(nut.groupings.size()) - 2));
+          if (gb >= ga)
+            ++gb;
+          if (nut.groupings.size() >= 4 && rng.coin(0.6))
+            {
+              // (the two groupings generated last are the complementary minimal pair when there is one)
+              ga = nut.groupings.size() - 2;
+              gb = nut.groupings.size() - 1;
+              if (rng.coin())
+                std::swap(ga, gb);
+            }
+          long both = 0;
+          const auto ab = via_viewgrams_alternating(norm, L, exam, ones, nut.groupings[ga], nut.groupings[gb], UNDO, both);
+          ctx.count("alternating_symmetry_groupings_runs");
+          ctx.count("alternating_symmetry_groupings_same_basic_viewgram_under_both", both);
+          for (int which = 0; which < 2; ++which)
+            {
+              const std::vector<float>& eg = which == 0 ? ab.first : ab.second;
+              const long d = first_bit_diff(e, eg);
+              if (d >= 0)
+                {
+                  ctx.violation(c + ":undo-differs-when-two-symmetry-groupings-alternate-on-one-object",
+                                bins(L.bins[d]) + vf::fmt(" grouping0 alone %.9g, grouping%zu alternating with grouping%zu %.9g", e[d], which == 0 ? ga : gb,
+                                                          which == 0 ? gb : ga, eg[d]));
+                  return none;
+                }
+            }
+        }
       {
         const SymSptr gs = nut.default_symm_ok && rng.coin(0.5) ? SymSptr() : rng.pick(nut.groupings);
         const std::vector<float> ep = via_projdata(norm, L, exam, ones, gs, UNDO);
@@ -423,6 +490,37 @@ check_norm(Ctx& ctx, const Nut& nut, const Layout& L, const shared_ptr<const Exa
               ctx.violation(c + ":apply-differs-between-symmetry-groupings",
                             bins(L.bins[d]) + vf::fmt(" grouping0 %.9g grouping%zu %.9g", a[d], g, ag[d]));
               return none;
+            }
+        }
+      if (nut.groupings.size() >= 2)
+        {
+          size_t ga = static_cast<size_t>(rng.range(0, static_cast<long>(nut.groupings.size()) - 1));
+          size_t gb = static_cast<size_t>(rng.range(0, static_cast<long>(nut.groupings.size()) - 2));
+          if (gb >= ga)
+            ++gb;
+          if (nut.groupings.size() >= 4 && rng.coin(0.6))
+            {
+              // (the two groupings generated last are the complementary minimal pair when there is one)
+              ga = nut.groupings.size() - 2;
+              gb = nut.groupings.size() - 1;
+              if (rng.coin())
+                std::swap(ga, gb);
+            }
+          long both = 0;
+          const auto ab = via_viewgrams_alternating(norm, L, exam, x, nut.groupings[ga], nut.groupings[gb], APPLY, both);
+          ctx.count("alternating_symmetry_groupings_runs");
+          ctx.count("alternating_symmetry_groupings_same_basic_viewgram_under_both", both);
+          for (int which = 0; which < 2; ++which)
+            {
+              const std::vector<float>& ag = which == 0 ? ab.first : ab.second;
+              const long d = first_bit_diff(a, ag);
+              if (d >= 0)
+                {
+                  ctx.violation(c + ":apply-differs-when-two-symmetry-groupings-alternate-on-one-object",
+                                bins(L.bins[d]) + vf::fmt(" grouping0 alone %.9g, grouping%zu alternating with grouping%zu %.9g", a[d], which == 0 ? ga : gb,
+                                                          which == 0 ? gb : ga, ag[d]));
+                  return none;
+                }
             }
         }
       {
@@ -1161,6 +1259,34 @@ run_case(Ctx& ctx)
         {
           w.plain_groupings.push_back(s);
           ctx.count("cfg_pet_symmetry_grouping");
+        }
+      // a second PET grouping with other switches (related sets of the same size around the same basic view/segment but with other
+      // members: swap-segment only against 180 degrees only ...)
+      if (s && rng.coin(0.5))
+        {
+          // the complementary minimal pair: swap-segment only {(v,s),(v,-s)} and 180 degrees only {(v,s),(n-v,-s)}
+          const bool sz = rng.coin();
+          SymSptr sa = pet_symmetries(ctx, w, false, false, true, false, sz);
+          SymSptr sb = pet_symmetries(ctx, w, false, true, false, false, sz);
+          if (sa && sb)
+            {
+              w.plain_groupings.push_back(sa);
+              w.plain_groupings.push_back(sb);
+              ctx.count("cfg_complementary_minimal_pet_symmetry_groupings");
+            }
+        }
+      else if (s && rng.coin(0.7))
+        {
+          const int pick = static_cast<int>(rng.range(0, 3));
+          SymSptr s2 = pick == 0   ? pet_symmetries(ctx, w, false, false, true, false, rng.coin())
+                       : pick == 1 ? pet_symmetries(ctx, w, false, true, false, false, rng.coin())
+                       : pick == 2 ? pet_symmetries(ctx, w, false, true, true, false, rng.coin())
+                                   : pet_symmetries(ctx, w, rng.coin(), rng.coin(), rng.coin(), rng.coin(), rng.coin());
+          if (s2)
+            {
+              w.plain_groupings.push_back(s2);
+              ctx.count("cfg_second_pet_symmetry_grouping");
+            }
         }
     }
 
